@@ -289,3 +289,47 @@ def hostile_names():
                 arr = sval + t + b'\x01'
                 yield 'hostile name %r array with tag %02x' % (name, tag), \
                     kb + b'A' + struct.pack('>I', len(arr)) + arr
+
+
+def shaped_nesting(max_depth):
+    """VALID nested values in which every level holds, next to the deeper
+    level, a sibling of another kind - before it or after it on the wire
+    (a decoder that starts a container over when it meets some element, or
+    decodes a child twice to find where it ends, pays once per level: 2^depth).
+    Yields (label, table body) for depth 1..max_depth."""
+    siblings = {
+        'array': b'A\x00\x00\x00\x04b\x01b\x02',
+        'empty array': b'A\x00\x00\x00\x00',
+        'table': b'F\x00\x00\x00\x04\x01kb\x01',
+        'empty table': b'F\x00\x00\x00\x00',
+        'string': b'S\x00\x00\x00\x02hi',
+        'bytes': b'x\x00\x00\x00\x02\x00\xce',
+        'int': b'I\x00\x01\x11\x70',
+        'bool': b't\x01',
+        'decimal': b'D\x02\x00\x00\x01\x3a',
+        'timestamp': b'T\x00\x00\x00\x00\x5f\x5e\x10\x00',
+        'void': b'V',
+        'double': b'd' + struct.pack('>d', 1.5),
+    }
+    for sname, sib in siblings.items():
+        for order in ('sibling after the child', 'sibling before the child',
+                      'siblings on both sides'):
+            for container in ('table', 'array'):
+                value = b'b\x07'            # innermost scalar
+                for depth in range(1, max_depth + 1):
+                    if container == 'table':
+                        child = b'\x01c' + value
+                        before = b'\x01a' + sib
+                        after = b'\x01z' + sib
+                    else:
+                        child, before, after = value, sib, sib
+                    body = {'sibling after the child': child + after,
+                            'sibling before the child': before + child,
+                            'siblings on both sides': before + child + after
+                            }[order]
+                    value = (b'F' if container == 'table' else b'A') + \
+                        struct.pack('>I', len(body)) + body
+                    if depth in (1, 2, 3, 4, 6, 8, 10, 12, 16, 20, 24, 28,
+                                 32) and depth <= max_depth:
+                        yield ('shaped nesting depth %d: %s, %s of %ss' % (
+                            depth, sname, order, container)), b'\x01r' + value
